@@ -47,6 +47,7 @@ type vxC14Stmt struct {
 	Res    []string `json:"res"`    // result columns of a select: "int" | "text"
 	Global bool     `json:"global"` // PREPARED metadata uses the global table spec
 	Wide   int      `json:"wide,omitempty"` // >0: a select with that many int result columns (instead of Res)
+	Twin   int      `json:"twin,omitempty"` // >0: the text of this statement is that of statement Twin-1 with its token column in capitals - another statement for the server (another id), the same for whoever folds the case
 }
 
 // res: the result columns of a select.
@@ -119,6 +120,9 @@ func (s *vxC14Stmt) arity() int { return 2 + len(s.Extra) }
 
 func (c *vxC14Case) text(i int) string {
 	s := &c.Stmts[i]
+	if b := s.Twin - 1; b >= 0 && b < i && c.Stmts[b].Twin == 0 {
+		return strings.Replace(c.text(b), "tok"+strconv.Itoa(b), "TOK"+strconv.Itoa(b), -1)
+	}
 	tok := "tok" + strconv.Itoa(i)
 	var cols []string
 	cols = append(cols, tok, "op")
@@ -236,6 +240,13 @@ func (c *vxC14Case) wrong(op *vxC14Op) bool {
 
 // sane repairs a case decoded from a (possibly hand-edited) replay file so that Run cannot index out of range.
 func (c *vxC14Case) sane() bool {
+	texts := map[string]bool{}
+	for i := range c.Stmts {
+		if c.Stmts[i].Twin < 0 || c.Stmts[i].Twin > i || texts[c.text(i)] {
+			return false
+		}
+		texts[c.text(i)] = true
+	}
 	if c.Proto < 1 || c.Proto > 5 || c.Hosts < 1 || c.Hosts > 2 || c.Keyspaces < 1 || c.Keyspaces > 2 || len(c.Stmts) == 0 || len(c.Nodes) < c.Hosts {
 		return false
 	}
@@ -368,8 +379,10 @@ func (w *vxC14World) onPrepare(ni int, rc *vnode.ReqCtx) {
 	n.nPrep++
 	ks := rc.Conn.Keyspace
 	stmt := -1
-	if m := vxC14TokRe.FindStringSubmatch(rc.Req.Statement); m != nil {
-		stmt, _ = strconv.Atoi(m[1])
+	for i := range c.Stmts {
+		if c.text(i) == rc.Req.Statement {
+			stmt = i
+		}
 	}
 	if stmt < 0 || stmt >= len(c.Stmts) || c.text(stmt) != rc.Req.Statement {
 		w.violate("node %d: PREPARE of a statement nobody executed: %q", ni, rc.Req.Statement)
@@ -1395,7 +1408,18 @@ func vxC14Draw(t *rapid.T) *vxC14Case {
 			if rapid.IntRange(0, 11).Draw(t, "wide") == 0 {
 				st.Wide = rapid.SampledFrom([]int{40, 999, 1000, 1001}).Draw(t, "wide_n")
 			}
-		} else {
+		}
+		if i > 0 && rapid.IntRange(0, 4).Draw(t, "twin") == 0 {
+			b, taken := rapid.IntRange(0, i-1).Draw(t, "twin_of"), false
+			for _, o := range c.Stmts {
+				taken = taken || o.Twin == b+1 // one twin per statement: texts stay distinct
+			}
+			if c.Stmts[b].Twin == 0 && !taken {
+				st = c.Stmts[b] // same kind and columns: only the letter case of the text differs
+				st.Twin = b + 1
+			}
+		}
+		if st.Kind != "select" {
 			dml = append(dml, i)
 		}
 		c.Stmts = append(c.Stmts, st)
